@@ -804,6 +804,16 @@ def main():
     except Exception as e:
         failed.append("qiodevicecopier.cpp (%s)" % str(e)[:300])
 
+    # ------------------------------------------------------------------ socket.cpp: the member functions, over the model's state
+    try:
+        import cxx2lean_qt
+        text, d2, f2 = cxx2lean_qt.translate_socket(repo, exp)
+        files["Sock.lean"] = text
+        done += d2
+        failed += f2
+    except Exception as e:
+        failed.append("socket.cpp member functions (%s)" % str(e)[:300])
+
     sha = hashlib.sha256()
     for name, content in sorted(files.items()):
         path = os.path.join(a.out, name)
